@@ -29,14 +29,14 @@ def describe():
                  "decides that no admissible occurrence (error-free: all classes; within tolerance: the classes named in the statement) exists among all interval "
                  "quadruples the placement rule admits; on a match path it decides the leftmost/rightmost/exact-removal clauses. non-trivial = jobs where both a "
                  "None outcome and a match outcome are reachable")
-    d["outside_bounds"] = d["outside_bounds"] + ["in the main jobs the k-mer prefilter is stubbed to 'present'; the 'with-prefilter' jobs run match_to with the real prefilter (adapter over ACGT, no wildcards, shapes (3,2),(4,3),(3,4)); C07 decides the prefilter in general"]
+    d["outside_bounds"] = d["outside_bounds"] + ["in the main jobs the k-mer prefilter is stubbed to 'present'; the 'with-prefilter' jobs run match_to with the real prefilter (adapter over ACGT, no wildcards, shapes (3,2),(4,3) in quick, up to (5,4) in thorough); C07 decides the prefilter in general"]
     d["stubs"] = ["SingleAdapter._make_kmer_finder -> MockKmerFinder in the main jobs only"]
     return d
 
 
 # jobs in which the k-mer prefilter is NOT stubbed (match_to exactly as users run it): reads shorter than, equal to
 # and longer than the adapter; no wildcards; minimum overlap enumerated (the k-mer tables need it concrete)
-COMPOSED_SHAPES_QUICK = [(3, 2), (4, 3), (3, 4)]
+COMPOSED_SHAPES_QUICK = [(3, 2), (4, 3)]
 COMPOSED_SHAPES_THOROUGH = [(3, 2), (4, 3), (3, 4), (4, 5), (5, 4)]
 
 
